@@ -311,11 +311,12 @@ def solve_projection_onto_manifold_quasi_newton(
         state_prev,
         abs(time_step),
     )
-    inv_jacob_constr_inner_product = system.jacob_constr_inner_product(
-        jacob_constr_prev,
-        dh2_flow_pos_dmom,
-    ).inv
+    i = 0
     try:
+        inv_jacob_constr_inner_product = system.jacob_constr_inner_product(
+            jacob_constr_prev,
+            dh2_flow_pos_dmom,
+        ).inv
         for i in range(max_iters):
             constr = system.constr(state)
             error = norm(constr)
